@@ -4,15 +4,15 @@ open TantivyModel.Grammar
 
 /-! ## sets `IN [a b c]` -/
 
-/-- a remainder at which an unquoted word stops: the end, a space, `)` or `]` -/
-def WStop (t : Str) : Prop := t = [] ∨ ∃ d t', t = d :: t' ∧ (d = ' ' ∨ d = ')' ∨ d = ']')
+/-- a remainder at which an unquoted word stops: the end, a space, `)`, `]` or `^` -/
+def WStop (t : Str) : Prop := t = [] ∨ ∃ d t', t = d :: t' ∧ (d = ' ' ∨ d = ')' ∨ d = ']' ∨ d = '^')
 
 theorem wordRest_stop (t : Str) (ht : WStop t) : wordRest t = ([], t) := by
   rcases ht with rfl | ⟨d, t', rfl, hd⟩
   · rfl
-  · have hb : d ≠ '\\' := by rcases hd with rfl | rfl | rfl <;> decide
+  · have hb : d ≠ '\\' := by rcases hd with rfl | rfl | rfl | rfl <;> decide
     have hs : (!isUniSpace d && !escapeInWord.contains d) = false := by
-      rcases hd with rfl | rfl | rfl <;> decide
+      rcases hd with rfl | rfl | rfl | rfl <;> decide
     unfold wordRest
     split
     · rename_i heq; cases heq
@@ -88,7 +88,7 @@ theorem simpleTerm_stop (c : Char) (r t : Str) (h : PlainWord (c :: r)) (ht : WS
 
 theorem wstop_elems (more : List (Nat × Str)) (t : Str) : WStop (elemsText more ++ ']' :: t) := by
   cases more with
-  | nil => exact Or.inr ⟨']', t, rfl, Or.inr (Or.inr rfl)⟩
+  | nil => exact Or.inr ⟨']', t, rfl, Or.inr (Or.inr (Or.inl rfl))⟩
   | cons e rest => exact Or.inr ⟨' ', _, rfl, Or.inl rfl⟩
 
 theorem skip1_blanks (k : Nat) (c : Char) (x : Str) (hc : isNomSpace c = false) :
